@@ -282,7 +282,9 @@ int vf_main (int argc, char **argv, const char *prop, void (*init) (void), vf_ca
 }
 
 /* ---------------- guarded storage ---------------- */
-static size_t pagesz (void) { static size_t p; if (!p) p = (size_t)sysconf (_SC_PAGESIZE); return p; }
+static size_t pagesz_v;
+static __attribute__ ((constructor)) void pagesz_init (void) { pagesz_v = (size_t)sysconf (_SC_PAGESIZE); }      /* set before any thread exists (C16 allocates from several threads) */
+static size_t pagesz (void) { return pagesz_v; }
 int vf_default_place (vf_rng *r)
 {
 #if defined(VF_FLAVOUR_ASAN) || defined(VF_FLAVOUR_UBSAN)
